@@ -48,6 +48,7 @@ if ! build 2>"$OUT/bin/build-$ID.err"; then
     exit 2
   fi
 fi
+if [ -n "${VERIF_BUILD_ONLY:-}" ]; then echo "$BIN"; exit 0; fi
 if [ "$MODE" = "replay" ]; then
   "$BIN" replay "$ARTEFACT"
   exit $?
